@@ -159,6 +159,8 @@ class C14(Prop):
             "auto_pong": gen.weighted([(4, st.just(True)), (1, st.just(False))]),
             "sends": sends,
             "close_at": st.one_of(st.none(), st.integers(0, 8)),
+            # the application calls close() before the opening handshake has finished (at Connected)
+            "early_close": gen.weighted([(8, st.just(False)), (1, st.just(True))]),
             "fault": st.one_of(st.none(), st.tuples(st.integers(0, 5), st.sampled_from(["timeout", "oserror", "exc"])).map(list)),
             "seg": gen.segmentation(),
             # an earlier connection in this process (same WebSocket object or another) and how it ended
@@ -219,7 +221,14 @@ class C14(Prop):
                                             ping(""), big, ping("63" * 100)],
                                    "auto_pong": auto_pong, "sends": [], "close_at": None, "fault": None, "seg": "whole",
                                    "deflate": deflate, "cmask": 0}
+        def early_close():
+            for b in battery:
+                for auto_pong in (True, False):
+                    for seg in ("whole", "bytewise", ["uniform", 7]):
+                        for d in (False, True):
+                            yield dict(b, early_close=True, auto_pong=auto_pong, seg=seg, deflate=d)
         return [Enumeration("pong_before_reaction_all_single_preemptions", cases, exhaustive=True),
+                Enumeration("close_called_before_the_handshake_finished", early_close, exhaustive=True),
                 Enumeration("pings_around_reads_that_fill_the_receive_buffer", around_full_reads, exhaustive=True),
                 after_every_prelude(battery), with_noise(battery), with_companion(battery), with_debug_log(battery),
                 Enumeration("pings_followed_by_every_kind_of_violating_frame",
@@ -248,6 +257,8 @@ class C14(Prop):
         reactions = list(case["sends"])
         if case["close_at"] is not None:
             reactions.append({"when": ["msg", case["close_at"]], "do": [["close", 1000, "done"]]})
+        if case.get("early_close"):
+            reactions.append({"when": ["event", "connected", 0], "do": [["close", 1000, "early"]]})
         att = {}
         if fault_ordinal is not None:
             att["faults"] = {"send": {str(fault_ordinal): case["fault"][1]}}
@@ -299,8 +310,14 @@ class C14(Prop):
         payloads = [tr.events[i]["data"] for i in ping_idx]
         labels = {"auto_pong:%s" % case["auto_pong"], "pings:%d" % min(len(ping_idx), 6),
                   "deflate" if case.get("deflate") else "plain"}
-        close_rec = [r for r in tr.actions if r["action"][0] == "close" and r["result"] == "ok"]
-        close_ev = close_rec[0]["ev"] if close_rec else None
+        # "has not yet sent a Close frame" is read off the WIRE (not off what close() returned): the event index at which
+        # the first Close frame of the client went out, whoever wrote it
+        close_ev = None
+        for e in tr.sim.log:
+            if e[0] == "send" and not e[2].startswith(b"GET ") and close_ev is None:
+                fr, _rest = wire.decode_frames(e[2])
+                if any(f.opcode == wire.CLOSE for f in fr):
+                    close_ev = e[5]
         ping_after_close = close_ev is not None and any(i > close_ev for i in ping_idx)
         in_fragment = "interleaved_control" in built.flags
         nontrivial = len(set(payloads)) >= 2 or in_fragment or ping_after_close
